@@ -811,6 +811,8 @@ class WSLoop:
         self.pragma = pragma
         self.ivs = ivs          # decl ids of the (collapsed) induction variables
         self.iv_names = names
+        self.seq0 = 0           # program-order interval of the loop inside its region
+        self.seq1 = 0
 
 
 class Ctx:
@@ -884,6 +886,10 @@ class Region:
         self.barrier_conflicts = []  # (kind, w item-like, r, description)
         self.block_clips = []   # (ok, description, node, text)
         self.block_covers = []  # (ok, description, node, text)
+        self.partials = []      # (ok, description, node, detail)
+        self.seq = 0            # program order of visited nodes
+        self.seq_of = {}
+        self.decl_seq = {}      # var id -> seq of its declaration inside the region
         self.team_splits = []   # (ok, description, node, text)
         self.nt_src = {}        # var id -> {"num", "max"}: derived from omp_get_num_threads()/max_threads()
                                 # anywhere in the function (also before the region)
@@ -971,6 +977,7 @@ class Region:
         self._uniformity()
         self._barrier_order()
         self._block_clip()
+        self._partial_aggregates()
 
     def _barrier(self):
         self.phase = self.nphase
@@ -1035,6 +1042,8 @@ class Region:
 
     def _visit(self, n, ctx):
         k = n.get("kind")
+        self.seq += 1
+        self.seq_of[id(n)] = self.seq
         ok = omp_kind(n)
         if ok:
             if ok in PARALLEL:
@@ -1078,7 +1087,9 @@ class Region:
                 privs = ctx.privs | frozenset(loop.ivs) | self._clause_vars(
                     n, pragma, ("private", "firstprivate", "lastprivate", "reduction", "linear"))
                 self.reduction_ids = self.reduction_ids | self._clause_vars(n, pragma, ("reduction",))
+                loop.seq0 = self.seq
                 self._visit(omp_body(n), ctx.but(ws=ctx.ws + (loop,), privs=privs))
+                loop.seq1 = self.seq
                 if not pragma.has("nowait"):
                     self._barrier()
                 return
@@ -1108,9 +1119,11 @@ class Region:
             raise AnalysisError("%s: OpenMP construct %s at line %d is not modelled" % (
                 self.func.name, ok, self.tu.line_of(n)))
         if k == "VarDecl":
+            self.decl_seq[n["id"]] = self.seq
             init = var_init(n)
             if init is not None:
                 self.assign_ev.append((n["id"], init, ctx))
+                self.seq_of[id(init)] = self.seq
                 self._visit(init, ctx)
             return
         if k in ("ArraySubscriptExpr", "MemberExpr", "DeclRefExpr") or (
@@ -1847,6 +1860,139 @@ class Region:
                         out.append("worksharing loop over %s (line %d)" % ("/".join(l.iv_names),
                                                                           self.tu.line_of(l.node)))
         return ", ".join(out)
+
+    # -- thread-private partial aggregates ------------------------------------------
+    def _partial_aggregates(self):
+        """A thread-private variable (or private array / heap block) that is only ACCUMULATED inside a
+        worksharing loop L (x += .., x = f(x, ..), if (.. x ..) x = ..; never plainly re-assigned in L) holds,
+        after L, the aggregate over the iterations THIS thread happened to get.  Decided uses:
+          * stored into shared memory under master/single: only one thread's part is applied;
+          * it (or a private value derived from it, e.g. a buffer sized by it) is used inside a different
+            worksharing loop that does not have the identical schedule(static) distribution: the thread now
+            works on iterations its partial does not describe.
+        Combining under critical/atomic by every thread, reduction clauses and any other use: no report."""
+        f = self.func
+        if not self.ws_loops:
+            return
+        iv_ids = {iv for l in self.ws_loops for iv in l.ivs}
+
+        def in_loop(l, node):
+            q = self.seq_of.get(id(node), 0)
+            return l.seq0 < q <= l.seq1
+
+        for L in self.ws_loops:
+            if L.seq1 == 0:
+                continue   # the region itself is the worksharing loop: nothing follows it in the region
+            acc, plain, where = {}, set(), {}
+            for node, lhs, rhs, ctx in self.store_ev:
+                if not in_loop(L, node):
+                    continue
+                l = strip(lhs)
+                for o in f.objects(lhs):
+                    if o[0] == "var":
+                        vid = o[1]
+                        if vid in iv_ids or vid in self.reduction_ids or not self.is_private_var(vid, ctx):
+                            continue
+                        if self.decl_seq.get(vid, 0) > L.seq0:
+                            continue   # declared inside L: per-iteration variable
+                    elif o[0] == "alloc":
+                        if not self.obj_private(o, ctx):
+                            continue
+                        site = [c for c, _ in self.call_ev if c["id"] == o[1]]
+                        if not site or self.seq_of.get(id(site[0]), 0) > L.seq0:
+                            continue
+                    else:
+                        continue
+                    root = self._root_decl(lhs)
+                    is_acc = node.get("kind") != "BinaryOperator" or rhs is None
+                    if not is_acc and root is not None and root in self._refs(rhs)[0] \
+                            and l.get("kind") == "DeclRefExpr":
+                        is_acc = True                      # x = f(x, ...)
+                    if not is_acc and l.get("kind") == "DeclRefExpr":
+                        for ck, cn, own, exprs in ctx.ctrl:
+                            if ck == "if" and in_loop(L, cn) and root in self._refs(exprs[0])[0]:
+                                is_acc = True              # if (.. x ..) x = ...
+                    if is_acc:
+                        acc.setdefault(o, []).append(node)
+                    else:
+                        plain.add(o)
+            partial_objs = {o: ns for o, ns in acc.items() if o not in plain}
+            if not partial_objs:
+                continue
+            pvars = {o[1] for o in partial_objs if o[0] == "var"}
+            # private values derived from each scalar partial after L
+            scalars = {v for v in pvars if is_arith(qt(f.vars.get(v, {})))}
+            derived_of = {}
+            for v0 in scalars:
+                derived = {v0}
+                for _ in range(10):
+                    ch = False
+                    for vid, rhs, ctx in self.assign_ev:
+                        if self.seq_of.get(id(rhs), 0) > L.seq1 and vid not in derived and \
+                                set(self._refs(rhs)[0]) & derived:
+                            derived.add(vid)
+                            ch = True
+                    for node, lhs, rhs, ctx in self.store_ev:
+                        l = strip(lhs)
+                        if rhs is not None and l.get("kind") == "DeclRefExpr" and \
+                                self.seq_of.get(id(node), 0) > L.seq1:
+                            vid = l["referencedDecl"]["id"]
+                            if vid not in derived and self.is_private_var(vid, ctx) and \
+                                    set(self._refs(rhs)[0]) & derived:
+                                derived.add(vid)
+                                ch = True
+                    if not ch:
+                        break
+                derived_of[v0] = derived
+            name = lambda v: f.vars.get(v, {}).get("name", "?")
+            problems = {}
+            # (1) applied to shared memory by one thread only
+            for it in self.items:
+                if it.kind != "store" or it.cls != "protected" or it.ctx.prot not in ONE_THREAD:
+                    continue
+                if self.seq_of.get(id(it.node), 0) <= L.seq1:
+                    continue
+                used = set()
+                for x in pwalk(it.node):
+                    if x.get("kind") in ("DeclRefExpr", "ArraySubscriptExpr", "MemberExpr", "UnaryOperator"):
+                        for o in (f.objects(x) if x.get("kind") != "DeclRefExpr" else
+                                  {f.obj_of_var(x["referencedDecl"])} if x["referencedDecl"].get("kind") != "FunctionDecl" else ()):
+                            if o in partial_objs:
+                                used.add(o)
+                for o in used:
+                    problems.setdefault(o, []).append(
+                        "`%s` (line %d) applies it to shared memory inside omp %s, i.e. only the part accumulated by "
+                        "the one thread that executes the block" % (
+                            re.sub(r"\s+", " ", it.text)[:70], it.line, it.ctx.prot))
+            # (2) used while working on a different distribution of iterations
+            for node, ctx, phase in self.read_ev:
+                if node.get("kind") != "DeclRefExpr" or self.seq_of.get(id(node), 0) <= L.seq1:
+                    continue
+                rid_ = node["referencedDecl"]["id"]
+                srcs = [v for v, d in derived_of.items() if rid_ in d]
+                if not srcs:
+                    continue
+                for L2 in ctx.ws:
+                    if L2 is L:
+                        continue
+                    same = L.pragma.schedule_kind() == "static" and L2.pragma.schedule_kind() == "static" \
+                        and L.pragma.collapse() == L2.pragma.collapse()
+                    if same:
+                        continue
+                    for v in srcs:
+                        problems.setdefault(("var", v), []).append(
+                            "`%s` (%s) is used at line %d inside the worksharing loop over %s, whose iterations are "
+                            "distributed differently from the loop that accumulated it" % (
+                                node["referencedDecl"]["name"], "the partial itself" if rid_ == v else "derived from it",
+                                self.tu.line_of(node), "/".join(L2.iv_names)))
+                    break
+            for o, nodes in sorted(partial_objs.items(), key=str):
+                what = ("variable %s" % name(o[1])) if o[0] == "var" else "per-thread heap block"
+                desc = "%s: %s accumulated in the worksharing loop over %s" % (f.name, what, "/".join(L.iv_names))
+                if o in problems:
+                    self.partials.append((False, desc, nodes[0], "; ".join(sorted(set(problems[o]))[:3])))
+                else:
+                    self.partials.append((True, desc, nodes[0], ""))
 
     # -- manual block partition by the thread count ---------------------------------
     def _lin(self, e):
